@@ -58,8 +58,13 @@ META = {
         "class. Further rules: token_line() without default only where the token is known to carry a map (R2); HTML "
         "attribute values cannot be None where str methods are applied (R3); text re-entering nested_render_text that "
         "is not a substring of the text being rendered (include, substitution) is behind a cycle guard with paired "
-        "insert/remove (R4); every while loop outside the option tokenizer has a recognised progress variant (R5); "
-        "values read out of yaml.safe_load are isinstance-narrowed before use (R6)."
+        "insert/remove (R4); every while loop outside the option tokenizer has a recognised progress variant - shrinking the tested "
+        "list, bounded counter, find-then-slice, stream read, counter in the candidate, tree descent - and a cyclic path that provably "
+        "changes nothing the loop tests read is a violation (R5); values produced by yaml.safe_load and values read out of them "
+        "(front-matter overrides in merge_file_level) are isinstance-narrowed, validated as mappings, or used inside a catching try "
+        "before attribute/subscript/iteration/**-unpack use (R6); a docutils node is offered to the name registry once per path (R7). "
+        "The catalogue entry 'tuple-unpack' evaluates the length of a split-derived right-hand side (maxsplit, separator test, slices, "
+        "padding, len() guards) for every split length up to a bound above all constants."
     ),
     "not_decided": (
         "Implicit AttributeError/KeyError/IndexError/TypeError of arbitrary expressions (only the targeted sub-rules R3, R6); "
@@ -377,8 +382,10 @@ def _cycle_guard(fi: FunctionInfo, call: ast.Call):
 
 @rule("C01.R5")
 def r5_loop_progress(corpus: Corpus, rep: Report, tier: str):
-    rep.rule("C01.R5", "every while loop outside parsers/options.py has a recognised progress variant")
-    g = get_callgraph(corpus)
+    rep.rule(
+        "C01.R5",
+        "every while loop outside parsers/options.py has a recognised progress variant; a cyclic path that changes nothing the loop test reads is a violation",
+    )
     n = 0
     for fi in corpus.all_functions():
         if fi.is_lambda or fi.module.name.endswith((".parsers.options", "._docs")):
@@ -392,46 +399,320 @@ def r5_loop_progress(corpus: Corpus, rep: Report, tier: str):
             v = _loop_variant(w, fi, corpus)
             if v:
                 rep.ok("C01.R5", k, site, v)
+                continue
+            stuck = _stuck_path(w, fi)
+            if stuck:
+                rep.violation("C01.R5", k, site, stuck)
             else:
-                rep.violation("C01.R5", k, site, "no progress variant recognised: some cyclic path neither shrinks the tested collection, advances the search position, reads the stream nor changes the candidate")
+                rep.error(
+                    "C01.R5",
+                    f"{site}: `while {short(w.test, 40)}` in {fi.qualname}: no progress variant recognised (modelled: shrinking the tested list, bounded counter, find-then-slice, "
+                    "reading the stream, counter in the candidate, tree descent) and no cyclic path could be proven to change nothing the tests read",
+                )
     rep.expect_min("C01.R5", 5, "while loops outside options.py")
 
 
-def _top_level_or_all_paths(w: ast.While, pred) -> bool:
-    """``pred`` holds for a statement every cyclic path executes (top-level statement of the body,
-    not after a conditional continue)."""
-    for st in w.body:
-        if any(pred(c) for c in ast.walk(st) if not isinstance(st, (ast.If, ast.For, ast.While, ast.Try)) or st is c) and not isinstance(st, (ast.If, ast.For, ast.While, ast.Try)):
+def _own_exprs(st) -> list[ast.AST]:
+    """What is evaluated when the CFG node of ``st`` itself executes (compound statements stand for their header)."""
+    if isinstance(st, (ast.If, ast.While)):
+        return [st.test]
+    if isinstance(st, ast.For):
+        return [st.iter, st.target]
+    if isinstance(st, ast.With):
+        return list(st.items)
+    if isinstance(st, ast.Match):
+        return [st.subject]
+    if isinstance(st, (ast.Try, ast.FunctionDef, ast.AsyncFunctionDef, ast.ClassDef)):
+        return []
+    return [st]
+
+
+def _cyclic_path_avoiding(w: ast.While, fi: FunctionInfo, hit) -> bool:
+    """Is there a path from the loop test (true edge) back to the loop test, inside the loop body, on which no
+    statement satisfies ``hit(stmt)``?"""
+    cfg = get_cfg(fi)
+    inside = {id(x) for st in w.body for x in ast.walk(st) if isinstance(x, ast.stmt)}
+
+    def in_loop(nd) -> bool:
+        if isinstance(nd, tuple):
+            inner = nd[1]
+            if isinstance(inner, ast.ExceptHandler):
+                return any(inner is h for t in ast.walk(w) if isinstance(t, ast.Try) and t is not w for h in t.handlers)
+            return id(inner) in inside
+        return id(nd) in inside
+
+    start = ("T", w)
+    seen = set()
+    work = list(cfg.succ.get(start, []))
+    while work:
+        nd = work.pop()
+        if nd is w:
             return True
-        # an `if` whose branches end in break/return/raise does not create a cyclic path around later statements
-        if isinstance(st, ast.If):
-            ends = lambda b: bool(b) and isinstance(b[-1], (ast.Break, ast.Return, ast.Raise))
-            if ends(st.body) and not st.orelse:
-                continue
-            if st.orelse and ends(st.body) and ends(st.orelse):
-                return True
-            return False
-        if isinstance(st, (ast.Continue,)):
-            return False
+        key = nd if isinstance(nd, (tuple, str)) else id(nd)
+        if key in seen or isinstance(nd, str) or not in_loop(nd):
+            continue
+        seen.add(key)
+        if isinstance(nd, ast.stmt) and hit(nd):
+            continue
+        work.extend(cfg.succ.get(nd, []))
     return False
 
 
-def _loop_variant(w: ast.While, fi: FunctionInfo, corpus: Corpus) -> str | None:
-    test = w.test
-    # pop-until-empty
+def _every_cyclic_path(w: ast.While, fi: FunctionInfo, pred) -> bool:
+    """``pred`` holds for some node evaluated by a statement on every cyclic path of the loop."""
+    return not _cyclic_path_avoiding(w, fi, lambda st: any(pred(c) for e in _own_exprs(st) for c in ast.walk(e)))
+
+
+def _root(e: ast.AST) -> str | None:
+    while isinstance(e, (ast.Attribute, ast.Subscript, ast.Call, ast.Starred)):
+        e = e.func if isinstance(e, ast.Call) else e.value
+    return e.id if isinstance(e, ast.Name) else None
+
+
+_PURE_FUNCS = ("len", "isinstance", "bool", "str", "int", "min", "max", "abs", "any", "all", "tuple", "list", "set", "frozenset", "sorted", "type", "callable")
+_PURE_METHODS = (
+    "startswith", "endswith", "strip", "lstrip", "rstrip", "isspace", "isdigit", "isalpha", "isalnum", "lower", "upper",
+    "find", "rfind", "index", "count", "get", "keys", "values", "items", "split", "rsplit", "partition",
+)
+
+
+def _is_pure_call(c: ast.Call) -> bool:
+    if isinstance(c.func, ast.Name):
+        return c.func.id in _PURE_FUNCS
+    return isinstance(c.func, ast.Attribute) and c.func.attr in _PURE_METHODS
+
+
+_PURE_NODES = (
+    ast.Name, ast.Attribute, ast.Subscript, ast.Constant, ast.Compare, ast.BoolOp, ast.BinOp, ast.UnaryOp, ast.Slice, ast.Tuple, ast.List,
+    ast.JoinedStr, ast.FormattedValue, ast.IfExp, ast.Call, ast.Load, ast.operator, ast.unaryop, ast.boolop, ast.cmpop, ast.keyword,
+)
+
+
+def _is_pure_expr(e: ast.expr) -> bool:
+    """Evaluating ``e`` has no effect and yields the same value while the names in it are unchanged."""
+    for c in ast.walk(e):
+        if not isinstance(c, _PURE_NODES):
+            return False
+        if isinstance(c, ast.Call) and not _is_pure_call(c):
+            return False
+    return True
+
+
+def _stuck_path(w: ast.While, fi: FunctionInfo) -> str | None:
+    """A reason string when some cyclic path provably changes nothing that the loop test - and every test
+    inside the loop that could leave it - reads: the same path is then taken forever."""
+    if isinstance(w.test, ast.Constant):
+        exits = [x for st in w.body for x in ast.walk(st) if isinstance(x, (ast.Break, ast.Return, ast.Raise))]
+        if w.test.value and not exits:
+            return "the test is constantly true and the body has no break/return/raise"
+        return None
+    inner_tests = [x.test for st in w.body for x in ast.walk(st) if isinstance(x, (ast.If, ast.While, ast.Assert, ast.IfExp))]
+    inner_tests += [x.iter for st in w.body for x in ast.walk(st) if isinstance(x, (ast.For, ast.comprehension))]
+    tests = [w.test] + inner_tests
+    # evaluating the tests must itself be free of effects and of hidden state
+    for t in tests:
+        if not _is_pure_expr(t):
+            return None
+    if any(isinstance(x, (ast.Global, ast.Nonlocal)) for x in fi.local_nodes()) or fi.parent_func is not None:
+        return None  # closures / globals: other code may change the names
+
+    def names(e: ast.AST) -> set[str]:
+        return {n.id for n in ast.walk(e) if isinstance(n, ast.Name) and not (isinstance(parent(n), ast.Call) and parent(n).func is n)}
+
+    reads: set[str] = set()
+    for t in tests:
+        reads |= names(t)
+    if not names(w.test):
+        return None
+
+    def recompute(st: ast.AST) -> bool:
+        """``v = <pure expression not mentioning v>``: assigns the same value again while its inputs are unchanged."""
+        return (
+            isinstance(st, ast.Assign)
+            and len(st.targets) == 1
+            and isinstance(st.targets[0], ast.Name)
+            and _is_pure_expr(st.value)
+            and st.targets[0].id not in names(st.value)
+        )
+
+    body_stmts = [x for st in w.body for x in ast.walk(st) if isinstance(x, ast.stmt)]
+    changed = True
+    while changed:
+        changed = False
+        for st in body_stmts:
+            if recompute(st) and st.targets[0].id in reads and not names(st.value) <= reads:
+                reads |= names(st.value)
+                changed = True
+        # aliases of what the tests read count as the same object
+        for n in fi.local_nodes():
+            if isinstance(n, ast.Assign) and len(n.targets) == 1 and isinstance(n.targets[0], ast.Name) and isinstance(n.value, ast.Name):
+                a_, b_ = n.targets[0].id, n.value.id
+                if (a_ in reads) != (b_ in reads):
+                    reads |= {a_, b_}
+                    changed = True
+    # do the tests look inside the objects (attribute / element reads), or only at the names themselves?
+    deep = False
+    for t in tests + [st.value for st in body_stmts if recompute(st) and st.targets[0].id in reads]:
+        for c in ast.walk(t):
+            if isinstance(c, ast.Subscript):
+                deep = True
+            if isinstance(c, ast.Attribute) and not (isinstance(parent(c), ast.Call) and parent(c).func is c and c.attr in _PURE_METHODS):
+                deep = True
+
+    def hands_over(e: ast.AST) -> bool:
+        """``e`` denotes one of the tested objects itself (or, for a deep test, something inside it)."""
+        if isinstance(e, ast.Starred):
+            e = e.value
+        if isinstance(e, ast.Name):
+            return e.id in reads
+        if deep:
+            while isinstance(e, (ast.Attribute, ast.Subscript)):
+                e = e.value
+            return isinstance(e, ast.Name) and e.id in reads
+        return False
+
+    def may_affect(st: ast.stmt) -> bool:
+        if recompute(st):
+            return False
+        for e in _own_exprs(st):
+            for c in ast.walk(e):
+                if isinstance(c, (ast.Yield, ast.YieldFrom, ast.Await, ast.NamedExpr)):
+                    return True  # control leaves the function: the consumer may change anything
+                if isinstance(c, ast.Name) and c.id in reads and isinstance(c.ctx, (ast.Store, ast.Del)):
+                    return True
+                if isinstance(c, (ast.Attribute, ast.Subscript)) and isinstance(c.ctx, (ast.Store, ast.Del)) and _root(c) in reads:
+                    return True
+                if isinstance(c, ast.Call) and not _is_pure_call(c):
+                    if isinstance(c.func, ast.Attribute) and hands_over(c.func.value):
+                        return True
+                    if any(hands_over(a) for a in list(c.args) + [k.value for k in c.keywords]):
+                        return True
+        return False
+
+    if _cyclic_path_avoiding(w, fi, may_affect):
+        return (
+            "some cyclic path changes nothing that the loop test or any test inside the loop reads ("
+            + ", ".join(sorted(reads))
+            + " are only re-computed from unchanged values; none is re-bound to something new, modified through a method/subscript, or handed to a call): "
+            "once that path is taken it is taken forever"
+        )
+    return None
+
+
+def _requires_nonempty(test: ast.expr) -> set[str]:
+    """Names of collections that are non-empty whenever the loop test is true."""
     if isinstance(test, ast.Name):
-        nm = test.id
+        return {test.id}
+    if isinstance(test, ast.BoolOp) and isinstance(test.op, ast.And):
+        out: set[str] = set()
+        for v in test.values:
+            out |= _requires_nonempty(v)
+        return out
+    if isinstance(test, ast.Call) and dotted(test.func) == "len" and len(test.args) == 1 and isinstance(test.args[0], ast.Name):
+        return {test.args[0].id}
+    if isinstance(test, ast.Compare) and len(test.ops) == 1:
+        l, r, op = test.left, test.comparators[0], test.ops[0]
+        if isinstance(l, ast.Call) and dotted(l.func) == "len" and len(l.args) == 1 and isinstance(l.args[0], ast.Name) and isinstance(r, ast.Constant) and isinstance(r.value, int):
+            if (isinstance(op, ast.Gt) and r.value >= 0) or (isinstance(op, ast.GtE) and r.value >= 1) or (isinstance(op, ast.NotEq) and r.value == 0):
+                return {l.args[0].id}
+    return set()
 
-        def is_pop(c):
-            return isinstance(c, ast.Call) and isinstance(c.func, ast.Attribute) and c.func.attr in ("pop", "popleft") and unparse(c.func.value) == nm
 
-        if _top_level_or_all_paths(w, is_pop):
+def _shrinks(c: ast.AST, nm: str) -> bool:
+    """``c`` removes at least one element from the list ``nm`` (or raises)."""
+    if isinstance(c, ast.Call) and isinstance(c.func, ast.Attribute) and c.func.attr in ("pop", "popleft") and unparse(c.func.value) == nm:
+        return True
+    if isinstance(c, ast.Assign) and len(c.targets) == 1 and isinstance(c.targets[0], ast.Name) and c.targets[0].id == nm:
+        v = c.value
+        if isinstance(v, ast.Subscript) and isinstance(v.value, ast.Name) and v.value.id == nm and isinstance(v.slice, ast.Slice):
+            sl = v.slice
+            const = lambda x: isinstance(x, ast.Constant) and isinstance(x.value, int) and not isinstance(x.value, bool)
+            if sl.step is None and sl.upper is None and const(sl.lower) and sl.lower.value >= 1:
+                return True  # X = X[k:]
+            if sl.step is None and sl.lower is None and isinstance(sl.upper, ast.UnaryOp) and isinstance(sl.upper.op, ast.USub) and const(sl.upper.operand) and sl.upper.operand.value >= 1:
+                return True  # X = X[:-k]
+    if isinstance(c, ast.Delete):
+        for t in c.targets:
+            if isinstance(t, ast.Subscript) and isinstance(t.value, ast.Name) and t.value.id == nm:
+                if isinstance(t.slice, ast.Constant) and isinstance(t.slice.value, int):
+                    return True  # del X[0]
+                sl = t.slice
+                if isinstance(sl, ast.Slice) and sl.step is None and sl.lower is None and isinstance(sl.upper, ast.Constant) and isinstance(sl.upper.value, int) and sl.upper.value >= 1:
+                    return True  # del X[:k]
+    return False
+
+
+def _effective_test(w: ast.While) -> ast.expr:
+    """``while True: if C: break ...`` tests ``not C`` before every iteration."""
+    if isinstance(w.test, ast.Constant) and w.test.value and w.body:
+        st = w.body[0]
+        if isinstance(st, ast.If) and not st.orelse and st.body and isinstance(st.body[-1], (ast.Break, ast.Return, ast.Raise)):
+            t = st.test
+            return t.operand if isinstance(t, ast.UnaryOp) and isinstance(t.op, ast.Not) else ast.UnaryOp(op=ast.Not(), operand=t)
+    return w.test
+
+
+def _counter_variant(w: ast.While, fi: FunctionInfo, test: ast.expr) -> str | None:
+    """``while i < BOUND`` (or a conjunction containing it): every cyclic path adds a positive constant to ``i``,
+    nothing else stores to ``i``, BOUND is not re-bound and a measured list does not grow (mirror image for ``>``)."""
+    conj = test.values if isinstance(test, ast.BoolOp) and isinstance(test.op, ast.And) else [test]
+    for t in conj:
+        if not (isinstance(t, ast.Compare) and len(t.ops) == 1):
+            continue
+        l, r, op = t.left, t.comparators[0], t.ops[0]
+        for ctr, bound, up in ((l, r, isinstance(op, (ast.Lt, ast.LtE))), (r, l, isinstance(op, (ast.Gt, ast.GtE)))):
+            if not isinstance(ctr, ast.Name) or not isinstance(op, (ast.Lt, ast.LtE, ast.Gt, ast.GtE)):
+                continue
+            i = ctr.id
+            if any(isinstance(x, ast.Name) and x.id == i for x in ast.walk(bound)):
+                continue
+
+            def steps(c, i=i, up=up):
+                want = ast.Add if up else ast.Sub
+                pos = lambda v: isinstance(v, ast.Constant) and isinstance(v.value, int) and not isinstance(v.value, bool) and v.value > 0
+                if isinstance(c, ast.AugAssign) and isinstance(c.target, ast.Name) and c.target.id == i and isinstance(c.op, want) and pos(c.value):
+                    return True
+                if isinstance(c, ast.Assign) and len(c.targets) == 1 and isinstance(c.targets[0], ast.Name) and c.targets[0].id == i:
+                    v = c.value
+                    return isinstance(v, ast.BinOp) and isinstance(v.op, want) and isinstance(v.left, ast.Name) and v.left.id == i and pos(v.right)
+                return False
+
+            if not _every_cyclic_path(w, fi, steps):
+                continue
+            stores_i = [c for c in ast.walk(w) if isinstance(c, ast.Name) and c.id == i and isinstance(c.ctx, (ast.Store, ast.Del)) and not steps(parent(c))]
+            bnames = {x.id for x in ast.walk(bound) if isinstance(x, ast.Name)} - {"len"}
+            stores_b = [c for c in ast.walk(w) if isinstance(c, ast.Name) and c.id in bnames and isinstance(c.ctx, (ast.Store, ast.Del))]
             grows = any(
-                isinstance(c, ast.Call) and isinstance(c.func, ast.Attribute) and c.func.attr in ("append", "extend", "insert") and unparse(c.func.value) == nm
+                isinstance(c, ast.Call) and isinstance(c.func, ast.Attribute) and c.func.attr in ("append", "extend", "insert", "appendleft", "add", "update") and _root(c.func) in bnames
                 for c in ast.walk(w)
             )
-            if not grows:
-                return f"pop-until-empty on {nm}"
+            impure_bound = any(isinstance(x, ast.Call) and dotted(x.func) != "len" for x in ast.walk(bound))
+            if not stores_i and not stores_b and not grows and not impure_bound:
+                return f"bounded counter: every cyclic path moves `{i}` by a positive constant towards `{short(bound, 30)}`, which does not move away"
+    return None
+
+
+def _loop_variant(w: ast.While, fi: FunctionInfo, corpus: Corpus) -> str | None:
+    test = _effective_test(w)
+    v = _counter_variant(w, fi, test)
+    if v:
+        return v
+    # shrink-until-empty: the test implies the collection is non-empty, every cyclic path removes an element
+    for nm in sorted(_requires_nonempty(test)):
+        if _every_cyclic_path(w, fi, lambda c: _shrinks(c, nm)):
+            other_stores = [
+                c
+                for c in ast.walk(w)
+                if (isinstance(c, ast.Name) and c.id == nm and isinstance(c.ctx, ast.Store) and not _shrinks(parent(c), nm))
+                or (isinstance(c, ast.AugAssign) and isinstance(c.target, ast.Name) and c.target.id == nm)
+                or (isinstance(c, ast.Subscript) and isinstance(c.ctx, ast.Store) and isinstance(c.value, ast.Name) and c.value.id == nm and isinstance(c.slice, ast.Slice))
+            ]
+            grows = any(
+                isinstance(c, ast.Call) and isinstance(c.func, ast.Attribute) and c.func.attr in ("append", "extend", "insert", "appendleft") and unparse(c.func.value) == nm
+                for c in ast.walk(w)
+            )
+            if not grows and not other_stores:
+                return f"shrink-until-empty on {nm}: every cyclic path pops / drops a leading slice of the tested list, nothing adds to it"
     # find-then-slice
     if isinstance(test, ast.Compare) and isinstance(test.left, ast.Name) and isinstance(test.ops[0], ast.NotEq) and unparse(test.comparators[0]) == "-1":
         pos = test.left.id
@@ -455,7 +736,7 @@ def _loop_variant(w: ast.While, fi: FunctionInfo, corpus: Corpus) -> str | None:
         def reads(c):
             return isinstance(c, ast.Call) and isinstance(c.func, ast.Attribute) and c.func.attr in ("read_buffer", "readline") and unparse(c.func.value) == "self"
 
-        if _top_level_or_all_paths(w, reads):
+        if _every_cyclic_path(w, fi, reads):
             rb = fi.cls.methods.get("read_buffer") if fi.cls else None
             if rb is not None and any(isinstance(s, ast.Assign) and unparse(s.targets[0]) == "self.eof" and unparse(s.value) == "True" for s in walk_local(rb.node)):
                 return "eof flag set by read_buffer() when the stream returns b'' (finite stream assumed)"
@@ -504,7 +785,7 @@ def _loop_variant(w: ast.While, fi: FunctionInfo, corpus: Corpus) -> str | None:
 
         if isinstance(st.value, ast.Subscript) and from_children(st.value):
             others = [d for d in ast.walk(w) if isinstance(d, ast.Assign) and any(isinstance(t, ast.Name) and t.id == cur for t in d.targets) and d is not st]
-            if not others and _top_level_or_all_paths(w, lambda c: c is st):
+            if not others and _every_cyclic_path(w, fi, lambda c: c is st):
                 return f"tree descent: `{cur}` is rebound to one of its own children on every cyclic path (finite tree)"
     return None
 
@@ -846,7 +1127,249 @@ def _check_narrowed(corpus: Corpus, fi: FunctionInfo, var: str, assign: ast.AST,
         rep.ok("C01.R6", k0, site0, f"{len(uses)} use(s), all dominated by " + "; ".join(sorted(how)))
 
 
-RULES = [r1_failure_mode_closure, r2_token_line, r3_html_attr_none, r4_reentry_guards, r5_loop_progress, r6_yaml_narrowing]
+# ---------------------------------------------------------------------------
+# R7 a docutils node is offered to the name registry once
+#
+# ``document.note_explicit_target(node, ..)`` / ``note_implicit_target(node, ..)`` register EVERY entry of
+# ``node['names']`` (docutils ``set_name_id_map`` iterates the whole list).  A second registration of the same node
+# therefore offers the names of the first one again: docutils treats them as duplicates of themselves, moves them to
+# ``dupnames`` while ``document.nameids`` keeps pointing at the node, and the next real duplicate of such a name (or
+# the second registration itself, when both are of the same kind) ends in ``dupname()``:
+# ``node['names'].remove(name)`` -> ValueError out of Parser.parse.  Accepted: at most one registration per node
+# object on every path, or a later registration that is *isolated* - ``node['names']`` is re-bound to a fresh list
+# directly before the call, so that only new names are offered.
+
+_REGISTER = ("note_explicit_target", "note_implicit_target")
+
+
+def _registration_events(corpus: Corpus):
+    """fq -> [(call, local name, kind)], plus the summaries {fq: {param: kind}} they are derived from."""
+
+    def compute():
+        g = get_callgraph(corpus)
+        funcs = [f for f in corpus.all_functions() if not f.is_lambda]
+        direct: dict[str, list] = {}
+        unknown: list[tuple[FunctionInfo, ast.AST, str]] = []
+        requires: dict[str, dict[str, list]] = {}  # fq -> registered param -> [(selector param, constant) | None]
+        for fi in funcs:
+            for c in fi.local_nodes():
+                if not (isinstance(c, ast.Call) and isinstance(c.func, ast.Attribute) and c.func.attr in _REGISTER and c.args):
+                    continue
+                if not (dotted(c.func.value) or "").split(".")[-1] == "document":
+                    continue
+                a0 = c.args[0]
+                if not isinstance(a0, ast.Name):
+                    continue  # attribute / call results: not tracked
+                direct.setdefault(fi.fq, []).append((c, a0.id, _isolation(fi, c, a0.id, unknown)))
+                req = _key_requirement(fi, c)
+                if req is not None:
+                    requires.setdefault(fi.fq, {}).setdefault(a0.id, []).append(req)
+                else:
+                    requires.setdefault(fi.fq, {}).setdefault(a0.id, []).append(None)
+        summ: dict[str, dict[str, str]] = {}
+        events: dict[str, list] = {}
+        for _ in range(6):
+            changed = False
+            for fi in funcs:
+                evs = list(direct.get(fi.fq, []))
+                for call, targets in g.callees(fi):
+                    for t in g.flat_targets(targets):
+                        ps = summ.get(t.fq)
+                        if not ps or t.is_lambda:
+                            continue
+                        a = t.node.args
+                        pos = [x.arg for x in a.posonlyargs + a.args]
+                        if t.cls is not None and pos and "staticmethod" not in t.decorators() and isinstance(call.func, ast.Attribute):
+                            pos = pos[1:]
+                        if any(isinstance(x, ast.Starred) for x in call.args):
+                            continue
+                        bound = dict(zip(pos, call.args))
+                        for k in call.keywords:
+                            if k.arg:
+                                bound[k.arg] = k.value
+                        for pname, kind in ps.items():
+                            v = bound.get(pname)
+                            if not isinstance(v, ast.Name) or any(e[0] is call and e[1] == v.id for e in evs):
+                                continue
+                            # the callee registers only for a key that its selector parameter lists
+                            # (copy_attributes: `key in keys and key == "id"`)
+                            reqs = requires.get(t.fq, {}).get(pname) or [None]
+                            if all(r is not None and _excluded(bound.get(r[0]), r[1]) for r in reqs):
+                                continue
+                            evs.append((call, v.id, kind))
+                events[fi.fq] = evs
+                mine: dict[str, str] = {}
+                for call, nm, kind in evs:
+                    if nm in fi.params and nm not in ("self", "cls") and not _rebound(fi, nm):
+                        mine[nm] = "plain" if kind == "plain" or mine.get(nm) == "plain" else kind
+                if mine != summ.get(fi.fq, {}):
+                    summ[fi.fq] = mine
+                    changed = True
+            if not changed:
+                break
+        return events, summ, unknown
+
+    return corpus.cache("c01-registration-events", compute)
+
+
+def _key_requirement(fi: FunctionInfo, call: ast.Call) -> tuple[str, object] | None:
+    """(selector parameter, constant): the registration runs only under ``V == const`` and ``V in <selector parameter>``."""
+    try:
+        cfg = get_cfg(fi)
+        facts = cfg.guards(cfg.stmt_of(call))
+    except Unsupported:
+        return None
+    consts: dict[str, object] = {}
+    member: dict[str, str] = {}
+    for t, pol in facts:
+        if not (isinstance(t, ast.Compare) and len(t.ops) == 1 and isinstance(t.left, ast.Name)):
+            continue
+        r = t.comparators[0]
+        if isinstance(t.ops[0], ast.Eq) and pol and isinstance(r, ast.Constant):
+            consts[t.left.id] = r.value
+        if isinstance(r, ast.Name) and r.id in fi.params and not _rebound(fi, r.id):
+            if (isinstance(t.ops[0], ast.In) and pol) or (isinstance(t.ops[0], ast.NotIn) and not pol):
+                member[t.left.id] = r.id
+    for v, c in consts.items():
+        if v in member:
+            return (member[v], c)
+    return None
+
+
+def _excluded(arg: ast.expr | None, const) -> bool:
+    """The selector argument is a literal collection of constants that does not list ``const``."""
+    if not isinstance(arg, (ast.Tuple, ast.List, ast.Set)):
+        return False
+    return all(isinstance(x, ast.Constant) for x in arg.elts) and all(x.value != const for x in arg.elts)
+
+
+def _rebound(fi: FunctionInfo, name: str) -> bool:
+    return any(isinstance(n, ast.Name) and n.id == name and isinstance(n.ctx, (ast.Store, ast.Del)) for n in fi.local_nodes())
+
+
+def _names_slot(e: ast.AST, var: str) -> bool:
+    return isinstance(e, ast.Subscript) and isinstance(e.value, ast.Name) and e.value.id == var and isinstance(e.slice, ast.Constant) and e.slice.value == "names"
+
+
+def _isolation(fi: FunctionInfo, call: ast.Call, var: str, unknown: list) -> str:
+    """'isolated' when ``var['names'] = [fresh, ...]`` (a list display that does not read the old names) is the
+    closest earlier statement of the same block that mentions ``var``; 'plain' otherwise.  Other re-bindings of
+    ``var['names']`` in the function are reported as not understood."""
+    st = call
+    while not isinstance(st, ast.stmt):
+        st = parent(st)
+    blk = None
+    for fld in ("body", "orelse", "finalbody"):
+        b = getattr(parent(st), fld, None)
+        if isinstance(b, list) and st in b:
+            blk = b
+    kind = "plain"
+    if blk is not None:
+        for prev in reversed(blk[: blk.index(st)]):
+            if not any(isinstance(x, ast.Name) and x.id == var for x in ast.walk(prev)):
+                continue
+            if (
+                isinstance(prev, ast.Assign)
+                and len(prev.targets) == 1
+                and _names_slot(prev.targets[0], var)
+                and isinstance(prev.value, ast.List)
+                and not any(isinstance(x, ast.Name) and x.id == var for x in ast.walk(prev.value))
+            ):
+                kind = "isolated"
+            break
+    if kind == "plain":
+        for n in fi.local_nodes():
+            if _names_slot(n, var) and isinstance(n.ctx, (ast.Store, ast.Del)) and n.lineno < call.lineno:
+                unknown.append((fi, n, var))
+    return kind
+
+
+@rule("C01.R7")
+def r7_single_registration(corpus: Corpus, rep: Report, tier: str):
+    rep.rule(
+        "C01.R7",
+        "a node is offered to docutils' name registry (note_explicit_target / note_implicit_target) once per path, or again only with "
+        "node['names'] re-bound to the new names: a second plain registration ends in ValueError (dupname -> list.remove)",
+    )
+    events, summ, unknown = _registration_events(corpus)
+    for fi, n, var in unknown:
+        rep.error("C01.R7", f"{fi.module.site(n)}: `{var}['names']` is re-bound before a registration in a way that is not the modelled isolation (`{var}['names'] = [new]` directly before the call)")
+    n_sites = 0
+    for fi in corpus.all_functions():
+        evs = events.get(fi.fq) or []
+        if not evs:
+            continue
+        by_name: dict[str, list] = {}
+        for call, nm, kind in evs:
+            by_name.setdefault(nm, []).append((call, kind))
+        for nm, lst in sorted(by_name.items()):
+            n_sites += len(lst)
+            k0 = f"{fi.fq}|{nm}"
+            if len(lst) < 2:
+                rep.ok("C01.R7", k0 + f"|{(dotted(lst[0][0].func) or unparse(lst[0][0].func)).split('.')[-1]}", fi.module.site(lst[0][0]), "only registration of this node in the function")
+                continue
+            bad = _second_plain_registration(fi, nm, lst)
+            if bad is None:
+                rep.ok("C01.R7", k0, fi.module.site(lst[0][0]), f"{len(lst)} registrations, never two on one path without isolation")
+            else:
+                first, second = bad
+                rep.violation(
+                    "C01.R7",
+                    f"{k0}|registered again by {(dotted(second.func) or unparse(second.func)).split('.')[-1]}",
+                    fi.module.site(second),
+                    f"`{nm}` is registered by `{short(first, 50)}` and, on the same path, again by `{short(second, 50)}`, which offers every name `{nm}` already carries a second time: "
+                    "docutils moves the first name to dupnames (an explicit `{#id}` on a heading becomes a 'duplicate implicit target'), and a later duplicate of it raises "
+                    "ValueError (list.remove) in docutils' dupname() out of Parser.parse",
+                    [fi.module.site(first), fi.module.site(second)],
+                )
+    rep.expect_min("C01.R7", 5, "nodes registered as targets")
+
+
+def _second_plain_registration(fi: FunctionInfo, nm: str, lst: list):
+    """(first call, second call) when some path runs a plain registration of ``nm`` after an earlier registration
+    of the same object (a re-binding of the name starts afresh)."""
+    cfg = get_cfg(fi)
+    by_stmt: dict[int, list] = {}
+    for call, kind in lst:
+        by_stmt.setdefault(id(cfg.stmt_of(call)), []).append((call, kind))
+    for v in by_stmt.values():
+        v.sort(key=lambda ck: (ck[0].lineno, ck[0].col_offset))
+    state: dict[object, dict] = {}  # node -> {first registration call or None} reaching the node's entry
+
+    def key(nd):
+        return nd if isinstance(nd, (tuple, str)) else id(nd)
+
+    work = [("ENTRY", frozenset([None]))]
+    inn: dict[object, set] = {}
+    found = None
+    nodes_by_key = {}
+    while work and found is None:
+        nd, incoming = work.pop()
+        k = key(nd)
+        nodes_by_key[k] = nd
+        cur = inn.setdefault(k, set())
+        new = set(incoming) - cur
+        if not new and k in state:
+            continue
+        cur |= new
+        state[k] = True
+        out = set(cur)
+        if isinstance(nd, ast.stmt):
+            for call, kind in by_stmt.get(id(nd), []):
+                firsts = [f for f in out if f is not None]
+                if firsts and kind == "plain":
+                    found = (min(firsts, key=lambda c: (c.lineno, c.col_offset)), call)
+                    break
+                out = {f if f is not None else call for f in out}
+            stores = any(isinstance(x, ast.Name) and x.id == nm and isinstance(x.ctx, (ast.Store, ast.Del)) for e in _own_exprs(nd) for x in ast.walk(e))
+            if stores:
+                out = {None}
+        for s_ in cfg.succ.get(nd, []):
+            work.append((s_, frozenset(out)))
+    return found
+
+
+RULES = [r1_failure_mode_closure, r2_token_line, r3_html_attr_none, r4_reentry_guards, r5_loop_progress, r6_yaml_narrowing, r7_single_registration]
 
 
 # ---------------------------------------------------------------------------
@@ -911,11 +1434,32 @@ def mutants(corpus: Corpus):
     iff = find_node(f, lambda n: isinstance(n, ast.If) and unparse(n.test) == "cyclic")
     if iff is not None:
         out.append(Mutant("c01-substitution-guard-dropped", "C01.R4", base.rel, splice(base.src, iff.body[-1], "pass"), expect="Jinja", canary=True))
-    # 10. field-list loop loses its pop
+    # 10. loops lose their progress step (provably stuck paths; the field-list loop hands its element to other
+    #     methods, so a dropped pop there is honestly an ANALYSIS-ERROR, not a provable violation)
+    dm_ = corpus.mod("parsers.directives")
+    f = dm_.func("_parse_directive_options")
+    c = find_node(f, lambda n: isinstance(n, ast.Call) and unparse(n) == "content_lines.pop(0)" and any(isinstance(a, ast.While) for a in ancestors(n)))
+    if c is not None:
+        out.append(Mutant("c01-option-lines-pop-dropped", "C01.R5", dm_.rel, splice(dm_.src, c, "content_lines[0]"), expect="while content_lines"))
+    else:
+        out.append(("c01-option-lines-pop-dropped", "content_lines.pop(0) not found in the option-lines loop"))
+    f = base.func("compute_unique_slug")
+    w_ = find_node(f, lambda n: isinstance(n, ast.While))
+    inc = next((x for x in (w_.body if w_ is not None else []) if isinstance(x, ast.AugAssign)), None)
+    if inc is not None:
+        out.append(Mutant("c01-uniquifier-counter-dropped", "C01.R5", base.rel, splice(base.src, inc, "pass"), expect="while uniq in"))
+    else:
+        out.append(("c01-uniquifier-counter-dropped", "no counter increment in the uniquifier loop"))
     f = base.func("DocutilsRenderer.render_field_list")
-    st = find_node(f, lambda n: isinstance(n, ast.Assign) and unparse(n.value) == "children.pop(0)" and isinstance(parent(n), ast.While))
-    if st is not None:
-        out.append(Mutant("c01-fieldlist-pop-dropped", "C01.R5", base.rel, splice(base.src, st.value, "children[0]"), expect="while children"))
+    w_ = find_node(f, lambda n: isinstance(n, ast.While))
+    brk = find_node(f, lambda n: isinstance(n, ast.Break) and w_ is not None and any(a is w_ for a in ancestors(n)))
+    if brk is not None:
+        # `continue` instead of `break` after the error message is harmless (the element was popped) - but a
+        # `continue` placed BEFORE the pop is a stuck path
+        pop = find_node(f, lambda n: isinstance(n, ast.Assign) and unparse(n.value) == "children.pop(0)")
+        if pop is not None:
+            ind = " " * pop.col_offset
+            out.append(Mutant("c01-fieldlist-continue-before-pop", "C01.R5", base.rel, splice(base.src, pop, f"if not children[0]:\n{ind}    continue\n{ind}" + segment_(base.src, pop)), expect="while children"))
     # 11. front matter: isinstance narrowing dropped
     f = base.func("DocutilsRenderer.render_front_matter")
     iff = find_node(f, lambda n: isinstance(n, ast.If) and "isinstance(data, dict)" in unparse(n.test))
@@ -962,4 +1506,92 @@ def mutants(corpus: Corpus):
     iff = find_node(f, lambda n: isinstance(n, ast.If) and "myst_include_stack" in unparse(n.test) and " in " in unparse(n.test))
     if iff is not None:
         out.append(Mutant("c01-include-cycle-guard-dropped", "C01.R4", mk.rel, splice(mk.src, iff.body[-1], "pass"), expect="file content"))
+    # --- tuple-unpack of split-derived sequences (catalogue entry generalised in round 2) ---
+    f = base.func("DocutilsRenderer.render_link_inventory")
+    wth = find_node(f, lambda n: isinstance(n, ast.With) and "suppress(IndexError)" in unparse(n.items[0].context_expr))
+    if wth is not None and wth.body and isinstance(wth.body[0], ast.Assign) and isinstance(wth.body[0].value, ast.Subscript):
+        parts = unparse(wth.body[0].value.value)
+        names = [unparse(b.targets[0]) for b in wth.body if isinstance(b, ast.Assign)]
+        lhs = ", ".join(names)
+        out.append(Mutant("c01-inv-path-padded-unpack", "C01.R1", base.rel, splice(base.src, wth, f"{lhs} = {parts} + [None] * ({len(names)} - len({parts}))"), expect="[None] *", canary=True))
+        out.append(Mutant("c01-inv-path-unpack-unpadded", "C01.R1", base.rel, splice(base.src, wth, f"{lhs} = {parts}[:{len(names)}]"), expect=f"{parts}[:{len(names)}]"))
+        out.append(Mutant("c01-inv-path-len-guard-too-weak", "C01.R1", base.rel, splice(base.src, wth, f"if len({parts}) >= {len(names)}:\n{' ' * wth.col_offset}    {lhs} = {parts}"), expect=f"origin={f.fq}|{parts}"))
+    else:
+        out.append(("c01-inv-path-padded-unpack", "render_link_inventory no longer indexes the path parts under suppress(IndexError)"))
+    wm = corpus.mod("warnings_")
+    f = wm.func("_is_suppressed_warning")
+    c = find_node(f, lambda n: isinstance(n, ast.Call) and isinstance(n.func, ast.Attribute) and n.func.attr == "split" and len(n.args) == 2)
+    if c is not None:
+        out.append(Mutant("c01-suppress-entry-maxsplit-dropped", "C01.R1", wm.rel, splice(wm.src, c, f"{unparse(c.func)}({unparse(c.args[0])})"), expect="_is_suppressed_warning"))
+    else:
+        out.append(("c01-suppress-entry-maxsplit-dropped", "no split(sep, 1) in _is_suppressed_warning"))
+    # --- values read out of the front matter (R6, round 2) ---
+    f = cm.func("merge_file_level")
+    mif = find_node(f, lambda n: isinstance(n, ast.If) and "merge_topmatter" in unparse(n.test))
+    sa = find_node(f, lambda n: isinstance(n, ast.Expr) and unparse(n).startswith("setattr(new, name, value)"))
+    if mif is not None and sa is not None and sa.lineno < mif.lineno:
+        ind = " " * sa.col_offset
+        src1 = splice(cm.src, mif, "pass")
+        src1 = splice(src1, sa, f"if {unparse(mif.test)}:\n{ind}    value = {{**old_value, **value}}\n{ind}setattr(new, name, value)")
+        out.append(Mutant("c01-topmatter-merge-before-validation", "C01.R6", cm.rel, src1, expect="merge_file_level|value"))
+    else:
+        out.append(("c01-topmatter-merge-before-validation", "merge_file_level: merge/store statements not found"))
+    hcont = find_node(f, lambda n: isinstance(n, ast.Continue) and isinstance(parent(n), ast.ExceptHandler))
+    if hcont is not None:
+        out.append(Mutant("c01-topmatter-failed-validation-falls-through", "C01.R6", cm.rel, splice(cm.src, hcont, "pass"), expect="merge_file_level|value"))
+    else:
+        out.append(("c01-topmatter-failed-validation-falls-through", "no `continue` in the validation handler"))
+    ci = corpus.cls("config.main:MdParserConfig")
+    sub = next((st for st in ci.node.body if isinstance(st, ast.AnnAssign) and isinstance(st.target, ast.Name) and st.target.id == "substitutions"), None)
+    dmc = next((x for x in ast.walk(sub) if isinstance(x, ast.Call) and (dotted(x.func) or "").endswith("deep_mapping") and len(x.args) == 3), None) if sub is not None else None
+    if dmc is not None:
+        out.append(Mutant("c01-merged-field-validator-admits-non-mapping", "C01.R6", cm.rel, splice(cm.src, dmc, f"{unparse(dmc.func)}({unparse(dmc.args[0])}, {unparse(dmc.args[1])})"), expect="merge_file_level|value"))
+    else:
+        out.append(("c01-merged-field-validator-admits-non-mapping", "substitutions is not validated by a 3-argument deep_mapping"))
+    # --- digit guard widened to str.isdigit(): int('\u00b2') raises ValueError ---
+    f = om.func("_scan_block_scalar_indicators")
+    iff = find_node(f, lambda n: isinstance(n, ast.If) and isinstance(n.test, ast.Compare) and isinstance(n.test.comparators[0], ast.Constant) and n.test.comparators[0].value == "0123456789")
+    if iff is not None:
+        out.append(Mutant("c01-digit-guard-widened-to-isdigit", "C01.R1", om.rel, splice(om.src, iff.test, f"{unparse(iff.test.left)}.isdigit()"), expect="int("))
+    else:
+        out.append(("c01-digit-guard-widened-to-isdigit", "no digit-set membership test in _scan_block_scalar_indicators"))
+    # --- a node offered twice to the docutils name registry (R7) ---
+    f = mk.func("MockIncludeDirective.run")
+    st = find_node(f, lambda n: isinstance(n, ast.Expr) and unparse(n).startswith("self.add_name("))
+    if st is not None:
+        ind = " " * st.col_offset
+        out.append(Mutant("c01-literal-include-named-twice", "C01.R7", mk.rel, splice(mk.src, st, segment_(mk.src, st) + f"\n{ind}" + segment_(mk.src, st)), expect="MockIncludeDirective.run|"))
+    else:
+        out.append(("c01-literal-include-named-twice", "no self.add_name(...) statement in the include mock"))
+    f = base.func("DocutilsRenderer.render_paragraph")
+    st = find_node(f, lambda n: isinstance(n, ast.Expr) and unparse(n).startswith("self.copy_attributes("))
+    if st is not None and isinstance(st.value, ast.Call) and len(st.value.args) >= 2 and isinstance(st.value.args[1], ast.Name):
+        ind = " " * st.col_offset
+        nd = st.value.args[1].id
+        out.append(Mutant("c01-paragraph-registered-implicit-too", "C01.R7", base.rel, splice(base.src, st, segment_(base.src, st) + f"\n{ind}self.document.note_implicit_target({nd}, {nd})"), expect="render_paragraph|", canary=False))
+    else:
+        out.append(("c01-paragraph-registered-implicit-too", "render_paragraph does not call copy_attributes(token, <name>, ...)"))
+    f = base.func("DocutilsRenderer.render_myst_target")
+    c = find_node(f, lambda n: isinstance(n, ast.Call) and isinstance(n.func, ast.Attribute) and n.func.attr == "note_explicit_target")
+    st = c
+    while st is not None and not isinstance(st, ast.stmt):
+        st = parent(st)
+    if st is not None:
+        ind = " " * st.col_offset
+        out.append(Mutant("c01-target-registered-explicit-and-implicit", "C01.R7", base.rel, splice(base.src, st, segment_(base.src, st) + f"\n{ind}" + segment_(base.src, st).replace("note_explicit_target", "note_implicit_target")), expect="render_myst_target|"))
+    else:
+        out.append(("c01-target-registered-explicit-and-implicit", "render_myst_target does not register its target"))
+    # once the heading double registration is repaired by isolating the implicit name: the repair reverted
+    f = base.func("DocutilsRenderer.generate_heading_target")
+    iso = find_node(
+        f,
+        lambda n: isinstance(n, ast.Assign) and len(n.targets) == 1 and isinstance(n.targets[0], ast.Subscript) and isinstance(n.targets[0].slice, ast.Constant)
+        and n.targets[0].slice.value == "names" and isinstance(n.value, ast.List) and len(n.value.elts) == 1,
+    )
+    if iso is not None:
+        out.append(Mutant("c01-heading-implicit-name-isolation-reverted", "C01.R7", base.rel, splice(base.src, iso, f"{unparse(iso.targets[0])}.append({unparse(iso.value.elts[0])})"), expect="render_heading|"))
     return out
+
+
+def segment_(src: str, node: ast.AST) -> str:
+    return ast.get_source_segment(src, node) or ""
